@@ -435,9 +435,9 @@ func buildPacket(p absPkt, name string, clientIP net.IP, r *rand.Rand, variant i
 // ---- observation ------------------------------------------------------------
 
 type obs struct {
-	replies [][]byte
-	formerr bool // engine-side FORMERR (ServeRaw returned false / Unpack failed)
-	tail    int
+	replies  [][]byte
+	formerr  bool // engine-side FORMERR (ServeRaw returned false / Unpack failed)
+	tail     int
 	wirePath bool
 }
 
